@@ -31,6 +31,11 @@ def profile(**over):
     return prof
 
 
+def THOROUGH():
+    import os
+    return os.environ.get('VERIF_TIER_EFFECTIVE') == 'thorough'
+
+
 class _Gen:
 
     def __init__(self, rng, prof):
@@ -46,7 +51,7 @@ class _Gen:
         self.budget = rng.choice((3, 4, 5, 6, 8, 10, prof['max_jobs']))
         self.budget = min(self.budget, prof['max_jobs'])
         self.max_depth = prof['max_depth']
-        if rng.random() < 0.03:
+        if rng.random() < (0.12 if THOROUGH() else 0.03):
             # now and then a larger tree
             self.budget, self.max_depth = 24, 4
         # a small palette of durations makes equal completion instants common
